@@ -154,16 +154,10 @@ def run(ctx):
         return es
     a, ar = accum(I), accum(IR)
     ctx.require(a and ar, 'get_pfb_waterfall: accumulation into XX_psd inside the polarisation loop not found')
-    if len(a) != len(ar):
-        ctx.ob('AGREE', 'one accumulation per polarisation, as in the reference', pw, False,
-               {'code': [(e.text(), pretty(e.cond())[:80]) for e in a], 'reference': [(e.text(), pretty(e.cond())[:80]) for e in ar]},
-               node=a[-1].node, construct='XX_psd += ... [count]')
-    else:
-        for k, (x, y) in enumerate(zip(a, ar)):
-            ctx.formula('AGREE', f'accumulation #{k}: |fftshift(fft(fine axis)/sqrt(F))|^2 of that polarisation is added', pw,
-                        x.data['rhs'], y.data['rhs'], node=x.node, construct=x.text() + f' [#{k} value]')
-            ctx.formula('AGREE', f'accumulation #{k}: performed for the same polarisations as the reference', pw, x.cond(), y.cond(),
-                        node=x.node, construct=x.text() + f' [#{k} guard]')
+    # (compared as guarded events: the x polarisation added once under either branch, or once unconditionally, is the same)
+    from .common import _match_groups
+    _match_groups(ctx, 'AGREE', 'get_pfb_waterfall: |fftshift(fft(fine axis)/sqrt(F))|^2 of every given polarisation is added once',
+                  pw, 'accumulation', a, ar, lambda e: [('value', e.data['rhs']), ('guard', e.cond())], lambda e: e.text()[:70])
     def zeros_init(II, acc):
         nm = acc[0].data['name']
         return [e for e in II.events if e.kind == 'store' and e.data.get('target') == 'name' and e.data.get('name') == nm
